@@ -63,6 +63,9 @@ var c01Templates = []string{
 	// streaming schedules (entries 2 and 3):
 	"\xffA\xffE\xffE\xffA",                        // 10: byte, two line-ending bytes, byte
 	"a\r\n\r\n\xffA\r\n",                          // 11: CRLF document
+	"a\r\n\r\n\r\n\xffA\r\n\r\nc\r\n",              // 12: CRLF document with runs of blank lines
+	"- a\r\r- \xffA\r\rb\r",                        // 13: bare-CR document, blank lines inside a block
+	"```\r\xffA\r\r\r```\rb\r",                    // 14: bare-CR fenced code with blank lines
 }
 
 func H_C01_F(n, entry int) {
